@@ -204,6 +204,28 @@ def check_rules(ctx):
         for n in body_walk(prod.node):
             if isinstance(n, ast.Assign) and isinstance(n.targets[0], ast.Tuple) and norm(n.value) in (f"{pv}.params", f"{pv}.gate.params"):
                 unpack = [norm(e) for e in n.targets[0].elts]
+        if unpack is None:
+            # the angles reach the emitted gates through something other than a plain unpacking of operation.params:
+            # an element-wise transformation (map / comprehension / call) changes the gate that is emitted
+            for n in body_walk(prod.node):
+                if not (isinstance(n, ast.Assign) and isinstance(n.targets[0], ast.Tuple)):
+                    continue
+                v = n.value
+                srcs = (f"{pv}.params", f"{pv}.gate.params")
+                while isinstance(v, ast.Call) and dotted(v.func) in ("tuple", "list") and len(v.args) == 1:
+                    v = v.args[0]
+                if norm(v) in srcs:
+                    unpack = [norm(e) for e in n.targets[0].elts]
+                    break
+                fn = None
+                if isinstance(v, ast.Call) and dotted(v.func) == "map" and len(v.args) == 2 and norm(v.args[1]) in srcs:
+                    fn = short(v.args[0])
+                elif isinstance(v, (ast.ListComp, ast.GeneratorExp)) and len(v.generators) == 1 and norm(v.generators[0].iter) in srcs and norm(v.elt) != norm(v.generators[0].target):
+                    fn = short(v.elt)
+                if fn is not None and fn not in ("sympy.sympify", "sympify"):
+                    ctx.violation(R4, ci.key + ":angles-unmodified", f"the rule's angles are passed through `{fn}` before the replacement gates are built: the emitted rotations are no longer the target gate's own angles (any reduction modulo a period shorter than the rotation gates' 4*pi period flips a sign, which under a control is a relative phase)", f"{prod.module.relpath}:{n.lineno}")
+                    unpack = [norm(e) for e in n.targets[0].elts]
+                    break
         lists = [v for defs in d.defs.values() for v in defs if isinstance(v, ast.List) and v.elts and all(isinstance(e, ast.Call) and isinstance(e.func, ast.Name) and e.func.id in {g.ident for g in table} for e in v.elts)]
         if unpack is None or len(lists) != 1 or target.factory is None:
             ctx.undecided(R3, ci.key, "production has an unrecognised shape (expected `a, b, c = operation.params` and one list of built-in gate calls)", prod)
